@@ -9,7 +9,7 @@
    ([names_ok]); histories with clashing names are compared with the model only. *)
 From Coq Require Import List Arith Bool ZArith.
 Import ListNotations.
-From Onet Require Export Base.Corr Api.Storage.
+From Onet Require Export Base.Corr Api.Storage Api.StorageSpec.
 
 Inductive case :=
 | CHist (names : list bytes) (dec : list bytes) (hist : list (hop * res))
@@ -18,21 +18,6 @@ Inductive case :=
      finished (service, key, answer) *)
 | CConc (names : list bytes) (writes : list (nat * bytes * bytes))
         (during after : list (nat * bytes * res)).
-
-Definition res_eqb (a b : res) : bool :=
-  match a, b with
-  | ROk, ROk | RErr, RErr | RNone, RNone | RCrash, RCrash => true
-  | RBytes x, RBytes y => bytes_eqb x y
-  | RVer x, RVer y => Z.eqb x y
-  | _, _ => false
-  end.
-
-Fixpoint ress_eqb (a b : list res) : bool :=
-  match a, b with
-  | [], [] => true
-  | x :: a', y :: b' => res_eqb x y && ress_eqb a' b'
-  | _, _ => false
-  end.
 
 (* ---- concurrent phase: any serialisation is allowed ---------------------- *)
 
@@ -82,53 +67,6 @@ Definition mismatches (l : list case) : list nat := mism_idx agree l.
    5 crash (nil bucket)
    6 concurrent savers: a load returned a value nobody wrote to that key of that
      service, or an error, or nothing after a completed write *)
-
-Fixpoint upd_nth {A} (l : list A) (n : nat) (x : A) : list A :=
-  match l, n with
-  | [], _ => []
-  | _ :: r, 0 => x :: r
-  | y :: r, S n' => y :: upd_nth r n' x
-  end.
-
-Definition is_crash (r : res) : bool := match r with RCrash => true | _ => false end.
-
-(* what the property demands for one answer, given the answer of the private database *)
-Definition demand (o : op) (expected got : res) : list nat :=
-  clause 5 (negb (is_crash got)) ++
-  match expected with
-  | ROk => clause 1 (res_eqb got ROk)
-  | RNone => match o with
-             | OAddGet _ _ => clause 4 (res_eqb got RNone)
-             | _ => clause 2 (res_eqb got RNone)
-             end
-  | RBytes v => match o with
-                | OAddGet _ _ => clause 4 (res_eqb got expected)
-                | _ => clause 1 (res_eqb got expected)
-                end
-  | RVer z => clause 3 (res_eqb got expected)
-  | RErr | RCrash => []            (* the property is silent *)
-  end.
-
-Section Check.
-  Variable dec : list bytes.
-  Variable names : list bytes.
-
-  (* private databases, one per service *)
-  Definition pinit : list db := map (fun n => startup [n] []) names.
-
-  Fixpoint pwalk (ps : list db) (h : list (hop * res)) : list nat :=
-    match h with
-    | [] => []
-    | (HOp s o, got) :: r =>
-        match nth_error names s, nth_error ps s with
-        | Some n, Some d =>
-            let (d1, expected) := exec_op dec n d o in
-            demand o expected got ++ pwalk (upd_nth ps s d1) r
-        | _, _ => pwalk ps r
-        end
-    | (HRestart, _) :: r => pwalk ps r   (* a restart changes no private database *)
-    end.
-End Check.
 
 Definition check (c : case) : list nat :=
   nodup Nat.eq_dec
